@@ -21,7 +21,21 @@ import ast
 from core.loader import FuncInfo, Repo, norm, own_nodes, parent
 
 BISECT = {"bisect", "bisect_left", "bisect_right", "insort", "insort_left", "insort_right"}
-PREFIX_COMPATIBLE_KEYS = {"str.lower", "str.upper", "str.casefold"}
+PREFIX_COMPATIBLE_KEYS = {"str.lower", "str.upper", "str.casefold", "components", "components-tuple"}
+# "components": the name split at the dots (`lambda n: n.split(".")`) - hierarchy order: a module is directly followed by all of
+# its sub modules, and only by them
+PY_KEYS = {None: None, "str.lower": str.lower, "str.upper": str.upper, "str.casefold": str.casefold, "components": lambda n: n.split("."), "components-tuple": lambda n: tuple(n.split("."))}
+
+
+def _components_of(b: ast.expr, p: str | None = None) -> str | None:
+    """'components' / 'components-tuple' when `b` is `<p>.split(".")` / `tuple(<p>.split("."))` (p: required receiver name)."""
+    tup = False
+    if isinstance(b, ast.Call) and isinstance(b.func, ast.Name) and b.func.id == "tuple" and len(b.args) == 1 and not b.keywords:
+        b, tup = b.args[0], True
+    if isinstance(b, ast.Call) and isinstance(b.func, ast.Attribute) and b.func.attr == "split" and len(b.args) == 1 and not b.keywords and isinstance(b.args[0], ast.Constant) and b.args[0].value == ".":
+        if p is None or (isinstance(b.func.value, ast.Name) and b.func.value.id == p):
+            return "components-tuple" if tup else "components"
+    return None
 
 
 def _is_bisect(repo: Repo, f: FuncInfo, call: ast.Call) -> bool:
@@ -48,6 +62,9 @@ def _key_text(k: ast.expr | None) -> str | None:
             return f"str.{b.func.attr}"
         if isinstance(b, ast.Name) and b.id == p:
             return None  # identity
+        comp = _components_of(b, p)
+        if comp is not None:
+            return comp
     return norm(k)
 
 
@@ -182,6 +199,9 @@ def _probe_key(f: FuncInfo, x: ast.expr, depth: int = 0) -> str | None:
     if depth > 4:
         return None
     if isinstance(x, ast.Call):
+        comp = _components_of(x)
+        if comp is not None:
+            return comp
         if isinstance(x.func, ast.Attribute) and not x.args and not isinstance(x.func.value, ast.Constant) and x.func.attr in ("lower", "upper", "casefold"):
             return f"str.{x.func.attr}"
         if len(x.args) == 1 and not x.keywords and isinstance(x.func, (ast.Name, ast.Attribute)):
@@ -228,4 +248,37 @@ def bisect_sites(repo: Repo, funcs: list[FuncInfo]) -> list[tuple[FuncInfo, ast.
             if verdict == "ok":
                 why = f"`{norm(lst, 40)}` is sorted by {bkey or 'the natural order'} and searched under the same order" + (f" (probe passed through {pkey})" if bkey else "")
             out.append((f, n, verdict, why))
+    return out
+
+
+def witness_fields(repo: Repo, funcs: list[FuncInfo]) -> list[tuple[str, object, ast.Call]]:
+    """(text of the attribute holding the sorted list, Python key function or None, bisect call) for every binary search over
+    a list stored on the object that is produced by one plain `sorted(...)` (natural order or a character-wise key)."""
+    out = []
+    seen: set[str] = set()
+    for f in funcs:
+        if isinstance(f.node, ast.Lambda):
+            continue
+        for n in own_nodes(f.node):
+            if not (isinstance(n, ast.Call) and _is_bisect(repo, f, n) and len(n.args) >= 2):
+                continue
+            lst = n.args[0]
+            if not (isinstance(lst, ast.Attribute) and isinstance(lst.value, ast.Name) and lst.value.id in ("self", "cls")):
+                continue
+            text = norm(lst)
+            if text in seen:
+                continue
+            sorts = _sortings(repo, f, lst)
+            if not sorts or len(sorts) != 1:
+                continue
+            skey, rev, node = sorts[0]
+            if rev or not (isinstance(node, ast.Call) and isinstance(node.func, ast.Name) and node.func.id == "sorted"):
+                continue
+            if not (isinstance(parent(node), (ast.Assign, ast.AnnAssign)) and parent(node).value is node):
+                continue  # the sorted list is post-processed (pruned, sliced) before it is stored: its content is not `sorted(all names)`
+            key = PY_KEYS.get(skey, "?")
+            if key == "?":
+                continue
+            seen.add(text)
+            out.append((text, key, n))
     return out
